@@ -42,7 +42,7 @@ func authGateLoc(c *Ctx, key string, fn *ssa.Function, loc stepLoc, pwArg ssa.Va
 		c.Bad("C03-AUTH", key, c.Pos(chk.Pos()), "the result of the credential check is not tested")
 		return
 	}
-	if !sliceVia(pwArg, loc).hasParam(outermost(fn), pwParam) {
+	if !sliceVia(pwArg, loc).hasParam(lexicalOutermost(fn), pwParam) {
 		c.Bad("C03-AUTH", key, c.Pos(chk.Pos()), "the credential checked is not the caller's "+pwParam)
 		return
 	}
@@ -211,7 +211,7 @@ func checkC03(c *Ctx) Meta {
 			if !inRepo(fn) {
 				continue
 			}
-			for _, a := range fieldAccesses(fn) {
+			for _, a := range fieldAccessesShallow(fn) {
 				if a.Type == tAddrMgr && a.Write && (a.Field == "hashedPrivPassphrase" || a.Field == "privPassphraseSalt" || a.Field == "masterKeyPriv") {
 					n++
 					if !allowed[outermost(fn).Name()] {
@@ -234,7 +234,7 @@ func checkC03(c *Ctx) Meta {
 				if !inRepo(fn) {
 					continue
 				}
-				for _, a := range fieldAccesses(fn) {
+				for _, a := range fieldAccessesShallow(fn) {
 					if a.Kind != "store" || a.Field != "unlocked" || (a.Type != tAddrMgr && a.Type != tKMC) {
 						continue
 					}
@@ -411,7 +411,7 @@ func checkEraser(c *Ctx) {
 		if pkgOf(fn) != pkgKeystore || outermost(fn) == clr {
 			continue
 		}
-		for _, a := range fieldAccesses(fn) {
+		for _, a := range fieldAccessesShallow(fn) {
 			k := a.Type + "." + a.Field
 			if _, ok := secrets[k]; !ok {
 				continue
@@ -508,7 +508,7 @@ func checkEraser(c *Ctx) {
 		// Lock's body: Lock itself plus the unexported helpers it calls (bounded inlining, summary.go)
 		for _, g := range bodyFns(lk, exceptExported) {
 			g := g
-			allInstrs(g, func(in ssa.Instruction) {
+			allInstrsShallow(g, func(in ssa.Instruction) {
 				if rg, isR := in.(*ssa.Range); isR && backSlice(rg.X).hasField(tKMC, "managedKeystores") {
 					rangeOK = true
 				}
@@ -516,7 +516,7 @@ func checkEraser(c *Ctx) {
 					callIn = true
 				}
 			})
-			for _, a := range fieldAccesses(g) {
+			for _, a := range fieldAccessesShallow(g) {
 				if a.Kind == "store" && a.Field == "unlocked" && a.Type == tKMC {
 					if k, ok := strip(a.In.(*ssa.Store).Val).(*ssa.Const); ok && k.Value.String() == "false" {
 						flag = true
@@ -562,7 +562,7 @@ func checkDerivedKeyLifetime(c *Ctx) {
 		if pkgOf(fn) != pkgKeystore {
 			continue
 		}
-		for _, chk := range callsIn(fn, idCheckPw) {
+		for _, chk := range callsInShallow(fn, idCheckPw) {
 			key := FuncName(fn) + ":after-checkPassword"
 			mgr := callRecv(chk)
 			stop := func(in ssa.Instruction) bool {
@@ -678,7 +678,7 @@ func cellHoldsParam(addr ssa.Value, fn *ssa.Function, name string) bool {
 		return false
 	}
 	found := false
-	for _, g := range withClosures(outermost(a.Parent())) {
+	for _, g := range withClosures(lexicalOutermost(a.Parent())) {
 		allInstrs(g, func(in ssa.Instruction) {
 			if st, ok := in.(*ssa.Store); ok && rootCell(st.Addr) == root && backSlice(st.Val).hasParam(fn, name) {
 				found = true
@@ -796,7 +796,7 @@ func checkScratchKeys(c *Ctx) {
 	sort.Slice(fns, func(i, j int) bool { return FuncName(fns[i]) < FuncName(fns[j]) })
 	for _, fn := range fns {
 		n := 0
-		for _, um := range callsIn(fn, idUnmarshalMP) {
+		for _, um := range callsInShallow(fn, idUnmarshalMP) {
 			n++
 			key := fmt.Sprintf("%s:unmarshalMasterPrivKey#%d", FuncName(fn), n)
 			target := um.Call.Args[0]
@@ -804,7 +804,7 @@ func checkScratchKeys(c *Ctx) {
 			isKey := func(v ssa.Value) bool { return v == target || (root != nil && rootCell(v) == root) }
 			// the defer may precede the derivation (defer k.Zero(); unmarshal(&k,…)): a dominating defer counts
 			domDefer := false
-			allInstrs(fn, func(in ssa.Instruction) {
+			allInstrsShallow(fn, func(in ssa.Instruction) {
 				if d, ok := in.(*ssa.Defer); ok && zeroStop(isKey)(d) && instrDominates(d, um) && !inCycle(d) {
 					domDefer = true
 				}
@@ -827,7 +827,7 @@ func checkScratchKeys(c *Ctx) {
 			}
 		}
 		m := 0
-		allInstrs(fn, func(in ssa.Instruction) {
+		allInstrsShallow(fn, func(in ssa.Instruction) {
 			cl, ok := in.(*ssa.Call)
 			if !ok || cl.Call.StaticCallee() != nil || cl.Call.IsInvoke() {
 				return
@@ -839,7 +839,7 @@ func checkScratchKeys(c *Ctx) {
 			res := resultOf(cl, 0)
 			// private iff its Marshal() becomes the stored private parameters
 			private := false
-			for _, g2 := range withClosures(outermost(fn)) {
+			for _, g2 := range withClosures(lexicalOutermost(fn)) {
 				for _, put := range callsIn(g2, pkgKeystore+".putMasterKeyParams") {
 					if backSlice(put.Call.Args[2]).has(res) {
 						private = true
@@ -1071,20 +1071,23 @@ func checkUnlockAllOrNothing(c *Ctx, rule string) {
 func checkRekeyAllKeystores(c *Ctx, rule string) {
 	if f := c.MustFn(rule, "poc/wallet/keystore", "(*KeystoreManagerForPoC).ChangePrivPassphrase"); f != nil {
 		ok := false
-		for _, s := range txSites(f) {
+		for _, s := range txSitesBody(f) { // the transaction may be started by a phase helper the reference tree does not have
 			if !s.Write || s.Closure == nil {
 				continue
 			}
 			// inside the closure: range over managedKeystores calling changePrivPassphrase
 			rangeOK, callIn := false, false
-			allInstrs(s.Closure, func(in ssa.Instruction) {
-				if rg, isR := in.(*ssa.Range); isR && backSlice(rg.X).hasField(tKMC, "managedKeystores") {
-					rangeOK = true
-				}
-				if cl, isC := in.(*ssa.Call); isC && isCall(cl, "(*"+tAddrMgr+").changePrivPassphrase") && blockReentered(s.Closure, cl) {
-					callIn = true
-				}
-			})
+			for _, g := range bodyFns(s.Closure, nil) {
+				g := g
+				allInstrsShallow(g, func(in ssa.Instruction) {
+					if rg, isR := in.(*ssa.Range); isR && backSlice(rg.X).hasField(tKMC, "managedKeystores") {
+						rangeOK = true
+					}
+					if cl, isC := in.(*ssa.Call); isC && isCall(cl, "(*"+tAddrMgr+").changePrivPassphrase") && blockReentered(g, cl) {
+						callIn = true
+					}
+				})
+			}
 			if rangeOK && callIn {
 				ok = true
 			}
